@@ -179,7 +179,7 @@ package session
 //@   requires unlocked: !held(s.mu)
 //@   requires wf: s.data == nil || wfSession(s)
 //@   lock s.mu protects lockToken
-//@   modifies s.data.Data, Middleware.destroyed, stHas, rqHdrHas, hdrCnt, jarHas, jarVal, jarAttr, ckKey, ckVal, ckAttr, jcPath, jcExp, jcPooled, lockToken
+//@   modifies s.data.Data, Middleware.destroyed, stHas, rqHdrHas, hdrCnt, rhLine, jarHas, jarVal, jarAttr, ckKey, ckVal, ckAttr, jcPath, jcExp, jcPooled, lockToken
 //@   ensures id-gone: result == nil && s.data != nil ==> !stHas[stOf(s)][s.id]
 //@   ensures data-cleared: s.data != nil ==> dataEmpty(s)
 //@   ensures others-untouched: othersKept(stOf(s), s.id)
@@ -208,7 +208,7 @@ package session
 //@ func (*Session).Reset
 //@   requires wf: wfSession(s)
 //@   lock s.mu protects lockToken
-//@   modifies s.data.Data, heap(MD_any_any), heap(MV_any_any), s.id, s.fresh, s.idleTimeout, stHas, issued, rqHdrHas, hdrCnt, jarHas, jarVal, jarAttr, ckKey, ckVal, ckAttr, jcPath, jcExp, jcPooled, lockToken
+//@   modifies s.data.Data, heap(MD_any_any), heap(MV_any_any), s.id, s.fresh, s.idleTimeout, stHas, issued, rqHdrHas, hdrCnt, rhLine, jarHas, jarVal, jarAttr, ckKey, ckVal, ckAttr, jcPath, jcExp, jcPooled, lockToken
 //@   ensures old-id-gone: result == nil ==> !stHas[stOf(s)][old(s.id)]
 //@   ensures new-id-issued: result == nil ==> s.id != old(s.id) && !old(issued)[s.id] && s.fresh
 //@   ensures data-cleared: forallI(k, k != absKey() ==> !indom(s.data.Data, k))
@@ -363,7 +363,7 @@ package session
 //@   requires store-wf: wfStore(s)
 //@   requires stored-only-issued: storedIssued(s.Storage)
 //@   lock sess.mu protects lockToken
-//@   modifies Session.ctx, Session.config, Session.id, Session.fresh, Session.idleTimeout, Session.data, data.Data, heap(MD_any_any), heap(MV_any_any), stHas, locHas, locVal, bufStr, gobIn, issued, rqHdrHas, hdrCnt, jarHas, jarVal, jarAttr, ckKey, ckVal, ckAttr, jcPath, jcExp, jcPooled, lockToken
+//@   modifies Session.ctx, Session.config, Session.id, Session.fresh, Session.idleTimeout, Session.data, data.Data, heap(MD_any_any), heap(MV_any_any), stHas, locHas, locVal, bufStr, gobIn, issued, rqHdrHas, hdrCnt, rhLine, jarHas, jarVal, jarAttr, ckKey, ckVal, ckAttr, jcPath, jcExp, jcPooled, lockToken
 //@   ensures never-adopts-unissued-id: result1 == nil ==> result0 != nil && result0.id != "" && issued[result0.id]
 //@   ensures existing-id-only-if-stored: result1 == nil && old(issued)[result0.id] ==> old(stHas)[s.Storage][result0.id]
 //@   ensures existing-id-sees-stored-data: result1 == nil && old(issued)[result0.id] ==> seesStored(result0, old(stVal)[s.Storage][result0.id])
@@ -393,7 +393,7 @@ package session
 //@   requires store-wf: wfStore(s)
 //@   requires package-errors-initialised: errorsSet()
 //@   requires stored-only-issued: storedIssued(s.Storage)
-//@   modifies Session.ctx, Session.config, Session.id, Session.fresh, Session.idleTimeout, Session.data, data.Data, heap(MD_any_any), heap(MV_any_any), stHas, locHas, locVal, bufStr, gobIn, issued, rqHdrHas, hdrCnt, jarHas, jarVal, jarAttr, ckKey, ckVal, ckAttr, jcPath, jcExp, jcPooled, lockToken
+//@   modifies Session.ctx, Session.config, Session.id, Session.fresh, Session.idleTimeout, Session.data, data.Data, heap(MD_any_any), heap(MV_any_any), stHas, locHas, locVal, bufStr, gobIn, issued, rqHdrHas, hdrCnt, rhLine, jarHas, jarVal, jarAttr, ckKey, ckVal, ckAttr, jcPath, jcExp, jcPooled, lockToken
 //@   ensures never-adopts-unissued-id: result1 == nil ==> result0 != nil && result0.id != "" && issued[result0.id]
 //@   ensures existing-id-only-if-stored: result1 == nil && old(issued)[result0.id] ==> old(stHas)[s.Storage][result0.id]
 //@   ensures existing-id-sees-stored-data: result1 == nil && old(issued)[result0.id] ==> seesStored(result0, old(stVal)[s.Storage][result0.id])
@@ -414,7 +414,7 @@ package session
 //@   requires package-errors-initialised: errorsSet()
 //@   requires stored-only-issued: storedIssued(s.Storage)
 //@   lock sess.mu protects lockToken
-//@   modifies Middleware.destroyed, Session.ctx, Session.config, Session.id, Session.fresh, Session.idleTimeout, Session.data, data.Data, heap(MD_any_any), heap(MV_any_any), stHas, bufStr, gobIn, rqHdrHas, hdrCnt, jarHas, jarVal, jarAttr, ckKey, ckVal, ckAttr, jcPath, jcExp, jcPooled, lockToken
+//@   modifies Middleware.destroyed, Session.ctx, Session.config, Session.id, Session.fresh, Session.idleTimeout, Session.data, data.Data, heap(MD_any_any), heap(MV_any_any), stHas, bufStr, gobIn, rqHdrHas, hdrCnt, rhLine, jarHas, jarVal, jarAttr, ckKey, ckVal, ckAttr, jcPath, jcExp, jcPooled, lockToken
 //@   ensures only-stored-id: result1 == nil ==> result0 != nil && id != "" && result0.id == id && old(stHas)[s.Storage][id] && !result0.fresh
 //@   ensures sees-stored-data: result1 == nil ==> seesStored(result0, old(stVal)[s.Storage][id])
 //@   ensures expired-not-returned: result1 == nil && s.AbsoluteTimeout > 0 ==> !expiredNow(result0)
@@ -477,7 +477,7 @@ package session
 //@ func (*Middleware).initialize panics
 //@   requires unlocked: !held(m.mu)
 //@   requires store-wf: cfg.Store != nil && wfStore(cfg.Store) && storedIssued(cfg.Store.Storage)
-//@   modifies heap, stHas, locHas, locVal, bufStr, gobIn, issued, rqHdrHas, hdrCnt, jarHas, jarVal, jarAttr, ckKey, ckVal, ckAttr, jcPath, jcExp, jcPooled, lockToken
+//@   modifies heap, stHas, locHas, locVal, bufStr, gobIn, issued, rqHdrHas, hdrCnt, rhLine, jarHas, jarVal, jarAttr, ckKey, ckVal, ckAttr, jcPath, jcExp, jcPooled, lockToken
 //@   ensures owns-session: mwInv(m) && m.ctx == c && m.Session.ctx == c && m.Session.config == cfg.Store && !held(m.mu)
 //@   ensures never-adopts-unissued-id: issued[m.Session.id]
 //@   ensures existing-id-only-if-stored: old(issued)[m.Session.id] ==> old(stHas)[cfg.Store.Storage][m.Session.id]
@@ -541,7 +541,7 @@ package session
 //@ func (*Middleware).Destroy
 //@   requires unlocked: !held(m.mu)
 //@   lock m.mu protects H_session_Middleware_destroyed inv mw-owns-session: mwInv(m)
-//@   modifies Middleware.destroyed, data.Data, stHas, rqHdrHas, hdrCnt, jarHas, jarVal, jarAttr, ckKey, ckVal, ckAttr, jcPath, jcExp, jcPooled, lockToken
+//@   modifies Middleware.destroyed, data.Data, stHas, rqHdrHas, hdrCnt, rhLine, jarHas, jarVal, jarAttr, ckKey, ckVal, ckAttr, jcPath, jcExp, jcPooled, lockToken
 //@   ensures marked-destroyed: m.destroyed
 //@   ensures id-gone: result == nil ==> !stHas[stOf(m.Session)][m.Session.id]
 //@   ensures data-cleared: dataEmpty(m.Session)
@@ -552,7 +552,7 @@ package session
 //@ func (*Middleware).Reset
 //@   requires unlocked: !held(m.mu)
 //@   lock m.mu protects lockToken inv mw-owns-session: mwInv(m)
-//@   modifies lockToken, data.Data, heap(MD_any_any), heap(MV_any_any), Session.id, Session.fresh, Session.idleTimeout, stHas, issued, rqHdrHas, hdrCnt, jarHas, jarVal, jarAttr, ckKey, ckVal, ckAttr, jcPath, jcExp, jcPooled
+//@   modifies lockToken, data.Data, heap(MD_any_any), heap(MV_any_any), Session.id, Session.fresh, Session.idleTimeout, stHas, issued, rqHdrHas, hdrCnt, rhLine, jarHas, jarVal, jarAttr, ckKey, ckVal, ckAttr, jcPath, jcExp, jcPooled
 //@   ensures old-id-gone: result == nil ==> !stHas[stOf(m.Session)][old(m.Session.id)]
 //@   ensures new-id-issued: result == nil ==> issued[m.Session.id] && !old(issued)[m.Session.id] && m.Session.fresh
 //@   ensures data-cleared: forallI(k, k != absKey() ==> !indom(m.Session.data.Data, k))
